@@ -78,31 +78,60 @@ def runPath : Nat → List Frame → List Edge → Option (Nat × List Frame × 
       | none => none
       | some (d', st', m) => some (d', st', min d m)
 
-/-- what an executed instruction does to `register_stack` and `return_marks` -/
+/-- what an executed instruction does to `register_stack`, `return_marks` and `go_sub_marks` -/
 inductive MOp where
   | op (o : Op)
-  /-- `PushRet`: the height is recorded -/
+  /-- `PushRet`: the heights of the register stack and of the GOSUB stack are recorded -/
   | call
-  /-- `PopRet`: back to the height recorded at the call (`register_stack.truncate`) -/
+  /-- `PopRet`: back to the heights recorded at the call (`register_stack.truncate`,
+  `go_sub_marks.truncate`) -/
   | ret
-  /-- RESUME label (with an error recorded): back to the height at the OUTERMOST call in progress -/
-  | leave
+  /-- RESUME label (with an error recorded): back to the heights at the OUTERMOST call in progress,
+  then (1a4d83d) down to the frames of the FOR loops that enclose the label: `fd` is the label's FOR
+  depth as the generator passes it in `label_depths` (`none`: no entry for the target address) -/
+  | leave (fd : Option Nat)
+  /-- `GoSub` (8f09b9b): the height of the register stack is recorded -/
+  | gosub
+  /-- `Return` with a GOSUB pending: back to the height recorded by that GOSUB -/
+  | gret
 
-/-- the stack (bottom first) and the recorded heights (innermost call first) -/
-def stepM (s : List Frame × List Nat) : MOp → List Frame × List Nat
-  | .op o => (apply s.1 o, s.2)
-  | .call => (s.1, s.1.length :: s.2)
-  | .ret => match s.2 with
-    | m :: rest => (s.1.take m, rest)
-    | [] => (s.1, [])
-  | .leave => match s.2.getLast? with
-    | some m => (s.1.take m, [])
-    | none => (s.1, [])
+/-- the machine: the stack (bottom first), the heights recorded by the calls in progress
+(register stack, GOSUB stack; innermost call first) and by the pending GOSUBs (most recent first) -/
+structure MSt where
+  st : List Frame
+  marks : List (Nat × Nat)
+  gos : List Nat
+  deriving DecidableEq, Repr
 
-/-- heights of the stack before each of a sequence of executed instructions, starting from the
-interpreter's initial stack `[Registers::new()]` with no call in progress -/
-def depths : List Frame × List Nat → List MOp → List Nat
+/-- `Vec::truncate(n)` on a stack kept most-recent-first: the oldest `n` entries remain -/
+def keepOldest (n : Nat) (l : List Nat) : List Nat := l.drop (l.length - n)
+
+def stepM (s : MSt) : MOp → MSt
+  | .op o => { s with st := apply s.st o }
+  | .call => { s with marks := (s.st.length, s.gos.length) :: s.marks }
+  | .ret => match s.marks with
+    | (m, g) :: rest => { st := s.st.take m, marks := rest, gos := keepOldest g s.gos }
+    | [] => s
+  | .leave fd =>
+    let s1 : MSt := match s.marks.getLast? with
+      | some (m, g) => { st := s.st.take m, marks := [], gos := keepOldest g s.gos }
+      | none => { s with marks := [] }
+    match fd with
+    | some d => { s1 with st := s1.st.take (1 + d) }
+    | none => s1
+  | .gosub => { s with gos := s.st.length :: s.gos }
+  | .gret => match s.gos with
+    | h :: rest => { s with st := s.st.take h, gos := rest }
+    | [] => s
+
+def runM (s : MSt) (ops : List MOp) : MSt := ops.foldl stepM s
+
+/-- the interpreter's initial state: `[Registers::new()]`, no call in progress, no GOSUB pending -/
+def MSt.init : MSt := ⟨[Frame.fresh], [], []⟩
+
+/-- heights of the stack before each of a sequence of executed instructions -/
+def depths : MSt → List MOp → List Nat
   | _, [] => []
-  | s, o :: rest => s.1.length :: depths (stepM s o) rest
+  | s, o :: rest => s.st.length :: depths (stepM s o) rest
 
 end RbModel.Frames
